@@ -33,8 +33,47 @@ func (f *vFile) IsDone() bool       { return false }
 type vStore struct{}
 
 func (vStore) Scan(func(sts.File) bool) ([]sts.File, time.Time, error) { return nil, time.Time{}, nil }
-func (vStore) GetOpener() sts.Open                                      { return nil }
-func (vStore) Remove(sts.File) error                                    { return nil }
-func (vStore) Sync(sts.File) (sts.File, error)                          { return nil, nil }
-func (vStore) IsNotExist(error) bool                                    { return false }
-func (vStore) ShouldIgnore(sts.File) bool                               { return false }
+func (vStore) GetOpener() sts.Open {
+	return func(f sts.File) (sts.Readable, error) { return &vReadable{name: f.GetName()}, nil }
+}
+func (vStore) Remove(sts.File) error           { return nil }
+func (vStore) Sync(sts.File) (sts.File, error) { return nil, nil }
+func (vStore) IsNotExist(error) bool           { return false }
+func (vStore) ShouldIgnore(sts.File) bool      { return false }
+
+// vByte: the content of the harness's files - byte o of file name is a function of both, so a
+// byte taken from a wrong offset or a wrong file shows.
+func vByte(name string, o int64) byte {
+	var h int64 = 7
+	for _, c := range name {
+		h = h*31 + int64(c)
+	}
+	return byte((h + o*13 + o/251) % 251)
+}
+
+type vReadable struct {
+	name string
+	pos  int64
+}
+
+func (r *vReadable) Read(p []byte) (int, error) {
+	for i := range p {
+		p[i] = vByte(r.name, r.pos+int64(i))
+	}
+	r.pos += int64(len(p))
+	return len(p), nil
+}
+
+func (r *vReadable) Seek(off int64, whence int) (int64, error) {
+	switch whence {
+	case 0:
+		r.pos = off
+	case 1:
+		r.pos += off
+	default:
+		panic("harness: seek from end of a generated file")
+	}
+	return r.pos, nil
+}
+
+func (r *vReadable) Close() error { return nil }
